@@ -1441,6 +1441,19 @@ class Engine:
         n = z3.simplify(n)
         darr = self._get(st.heap[dst.obj], dst.path)
         sarr = self._get(st.heap[src.obj], src.path)
+        if isinstance(darr, ArrV) and isinstance(sarr, ArrV) and len(darr.items) <= 64 and len(sarr.items) <= 64 and \
+                all(is_z3(x) for x in darr.items) and all(is_z3(x) for x in sarr.items):
+            # small fixed-size arrays with symbolic offsets / length (copy(a[:4], a[k:k+4])): element-wise, from a snapshot of the
+            # source (memmove semantics, also when both slices lie in the same array)
+            doff, soff = idx_term(dst.off), idx_term(src.off)
+            items = []
+            for d, old in enumerate(darr.items):
+                dk = z3.BitVecVal(d, 64)
+                inr = z3.And(z3.UGE(dk, doff), z3.ULT(dk - doff, n))
+                srcv = self._ite_chain(list(sarr.items), z3.simplify(soff + (dk - doff)))
+                items.append(z3.If(inr, srcv, old))
+            st.heap[dst.obj] = self._set(st.heap[dst.obj], dst.path, ArrV(items))
+            return n
         if not isinstance(darr, ZArr) or not isinstance(sarr, ZArr):
             raise Unsupported("large copy on non-z3 arrays")
         new = z3.Const(self.fresh_name("copy"), darr.term.sort())
